@@ -181,6 +181,25 @@ def gen_roots(w: Prng, sp: Prng) -> dict:
             elif holder in has_child:
                 sig = sorted(sig)
         forest["sig"] = sig
+    ld = w.stream("lead")
+    if sk == "asc" and ld.chance(0.25):
+        # the first listed root need not be the first ROW: samples of a later root's tree may be listed before it
+        # (a fragment traced first, its own root further down). "The first root" is the first parentless row.
+        root_of = list(range(n))
+        for i in range(n):
+            j = i
+            while pid[j] != -1:
+                j = pid[j]
+            root_of[i] = j
+        cands = [i for i in range(n) if pid[i] != -1 and root_of[i] != 0]
+        if cands:
+            lead = ld.sample(cands, min(len(cands), ld.choice([1, 1, 2])))
+            order = lead + [i for i in range(n) if i not in lead]  # new row -> old row
+            new_row = {old: new for new, old in enumerate(order)}
+            for key in ("type", "x", "y", "z", "r"):
+                forest[key] = [forest[key][o] for o in order]
+            forest["pid"] = [(-1 if pid[o] == -1 else new_row[pid[o]]) for o in order]
+            forest["lead"] = len(lead)
     reads = []
     for _ in range(w.randint(1, 4)):
         fix = w.choice([False, "somas", "nearest"])
@@ -480,6 +499,10 @@ def run_table(program: dict, world: World, out: dict):
     out["nontrivial"] = out["steps"] >= 3 and interesting
 
 
+def first_root(f: dict) -> int:
+    return f["pid"].index(-1)
+
+
 def sig_of(f: dict) -> list[int]:
     return f.get("sig") or list(range(len(f["pid"])))
 
@@ -565,14 +588,14 @@ def judge_frame(f: dict, rows: dict, op: str, *, repaired: bool, id_shift, relab
             new_pid[i] = back[p]
         else:
             raise Bad("dangling_parent", op, f"node of file row {i} has parent id {p} which is no node of the result")
-    first = 0
+    first = first_root(f)
     for i in range(n):
         if f["pid"][i] != -1 and new_pid[i] != f["pid"][i]:
             raise Bad("edge_lost", op, f"file row {i}: parent was row {f['pid'][i]}, now {new_pid[i]}")
     roots = [i for i in range(n) if new_pid[i] == -1]
     if repaired:
         if roots != [first]:
-            raise Bad("not_single_rooted", op, f"roots after repair are file rows {roots}, expected only row 0")
+            raise Bad("not_single_rooted", op, f"roots after repair are file rows {roots}, expected only row {first} (the first root)")
         if not table_model.connected(new_pid) or table_model.has_cycle(new_pid):
             raise Bad("not_a_tree", op, "the repaired table is not a tree")
     else:
@@ -629,6 +652,11 @@ def run_roots(program: dict, world: World, out: dict):
                 op = "link_roots_to_nearest"
                 res = guarded(op, lambda: swc_utils.link_roots_to_nearest(df))
                 shift, repaired = b, True
+            elif f.get("lead"):
+                # re-basing on a first root that is not the first row sends the id one below it to the no-parent
+                # marker: an ambiguous encoding, nothing is demanded
+                world.log(ri, "reset_index", "skipped: rows listed before the first root")
+                continue
             else:
                 op = "reset_index"
                 res = guarded(op, lambda: swc_utils.reset_index(df))
@@ -671,7 +699,16 @@ def run_roots(program: dict, world: World, out: dict):
                     api, op = "read_swc", f"read_swc[fix_roots={fix}]"  # a Tree needs id == position
                 else:
                     sort = True
+            if f.get("lead"):
+                world.probe("c18.rows_listed_before_the_first_root")
+                if api == "tree":
+                    if fix is False:
+                        api, op = "read_swc", f"read_swc[fix_roots={fix}]"
+                    else:
+                        sort = True
             reset = bool(rd["reset"]) or api == "tree"
+            if f.get("lead") and not sort:
+                reset = False  # see reset_index above: ids are left as they are
             if fix == "nearest" and sig_of(f)[0] > 0 and api == "read_swc" and not sort:
                 # re-basing on a first root that does not carry the smallest id maps id (root - 1) to the
                 # no-parent marker; `nearest` may make exactly that node a parent. The statement cannot mean a
